@@ -52,7 +52,7 @@ const opChars = "+-*/<>=~!@#%^&|`?"
 
 // Lex tokenises SQL text. base is added to all positions (used for function bodies so that positions refer to the file).
 func Lex(src string, base int) ([]Token, error) {
-	var toks []Token
+	toks := make([]Token, 0, len(src)/4+8)
 	i := 0
 	n := len(src)
 	for i < n {
